@@ -550,9 +550,24 @@ def rule_serializer_flow(chk):
 
     def ctor_passes(f, pname, what):
         ok = False
+        from . import c02 as _c02
+        builders = _c02.root_builders(ctx)
         for n in iter_own_nodes(f.node):
             if isinstance(n, ast.Call) and init in ctx.targets(f, n) and len(n.args) >= 5:
                 ok = isinstance(n.args[4], ast.Name) and n.args[4].id == pname and not stores_to_name(f, pname)
+            elif isinstance(n, ast.Call) and ctx.targets(f, n) and all(t in builders for t in ctx.targets(f, n)):
+                # a private root-builder helper: the serializers must be handed to it and it must hand them to Action(...)
+                for g in ctx.targets(f, n):
+                    passed = [i for i, a in enumerate(n.args) if isinstance(a, ast.Name) and a.id == pname] + \
+                             [g.pos_params.index(k.arg) for k in n.keywords if k.arg in g.pos_params and isinstance(k.value, ast.Name) and k.value.id == pname]
+                    okg = False
+                    for i in passed:
+                        if i < len(g.pos_params):
+                            gp = g.pos_params[i]
+                            for r in builders[g]:
+                                if isinstance(r, ast.Call) and len(r.args) >= 5 and isinstance(r.args[4], ast.Name) and r.args[4].id == gp and not stores_to_name(g, gp):
+                                    okg = True
+                    ok = okg and not stores_to_name(f, pname)
         chk.req(ok, "C13.attach", "%s:passes-serializers-to-the-action" % f.qualname, chk.where(f), good="%s handed to Action(...)" % pname,
                 fail="%s constructs the action without the serializers it was given (%s): typed fields are neither serialized nor validated" % (f.qualname, what))
     ctor_passes(ctx.func("_action", "startTask"), "_serializers", "start_task / ActionType.as_task")
